@@ -1157,7 +1157,7 @@ theorem distancePointFromCurvedPlanes_safe (coord : CoordSys R) (checkPoint nat 
   · exact Safe.pure ⟨by show 0 + 1 < _; omega, hk⟩
   · rename_i cp
     have hcp : cp.index + 1 < pointList.length := by have := hcpo cp rfl; omega
-    extract_lets cl2d clS clC iSec fraction clB clBC yAxis0 xAxis0 nrm f y vx vy vz refp side kk dref abn localRef frame
+    extract_lets cl2d clS clC iSec fraction clB clBC yAxis0 xAxis0 dl lonShift csAl cs2dAl nrm f y vx vy vz refp side kk dref abn localRef frame
     have hi : iSec + 1 < pointList.length := hcp
     refine Safe.bind (Safe.idx _ _ (by omega)) (fun angsCur hac => ?_)
     refine Safe.bind (Safe.idx _ _ (by omega)) (fun angsNext han => ?_)
